@@ -473,6 +473,37 @@ func c06sweep(d *document.Document, r *sim.Rand, st *sim.Stats) {
 	_ = d.AddHeader(document.HeaderFooterTypeEven, "header after open")
 	_ = d.SetPageMargins(20, 20, 20, 20)
 	_ = d.GetPageSettings()
+	// ---- a short PRNG-chosen history of further edits and reads, as a program does to a document it has opened
+	// (state the reader derived from positions in the file must survive removals and insertions)
+	menu := []func(){
+		func() { d.RemoveParagraphAt(r.Intn(4)) },
+		func() {
+			if ps := d.Body.GetParagraphs(); len(ps) > 0 {
+				d.RemoveParagraph(ps[r.Intn(len(ps))])
+			}
+		},
+		func() { d.RemoveElementAt(r.Intn(5)) },
+		func() { d.AddParagraph("more text") },
+		func() { d.AddHeadingParagraph("heading after open", 1+r.Intn(3)) },
+		func() { _ = d.SetPageMargins(10+float64(r.Intn(20)), 20, 20, 20) },
+		func() { _ = d.GetPageSettings() },
+		func() { _ = d.SetPageOrientation(document.OrientationLandscape) },
+		func() { _ = d.SetPageSize(document.PageSizeA4) },
+		func() { d.AddListItem("item after open", nil) },
+		func() { _ = d.AddFootnote("noted", "footnote after open") },
+		func() { _ = d.AddFooter(document.HeaderFooterTypeDefault, "footer after open") },
+		func() { _ = d.AutoGenerateTOC(document.DefaultTOCConfig()) },
+		func() { _ = d.GenerateTOC(document.DefaultTOCConfig()) },
+		func() { _ = d.UpdateTOC() },
+		func() { d.AddPageBreak() },
+		func() { _, _ = d.AddTable(&document.TableConfig{Rows: 2, Cols: 2, Width: 4000}) },
+		func() { _ = d.ListHeadings(); _ = d.GetHeadingCount() },
+		func() { _, _ = d.GetDocumentProperties(); _ = d.SetTitle("title after open") },
+		func() { _, _ = d.ToBytes() },
+	}
+	for k, n := 0, 3+r.Intn(7); k < n; k++ {
+		menu[r.Intn(len(menu))]()
+	}
 	st.Probe("editing_sweeps")
 }
 
